@@ -41,6 +41,15 @@ func (rt *runtime) cmplCallNodeFunction(function *object, stash *fnStash, node *
 		// strict = false
 		rt.scope.lexical.setValue(name, value, false)
 	}
+	// 10.6 step 11.c: a repeated parameter name is mapped once, to its last occurrence that received an
+	// argument; an earlier index is a plain property holding its own argument
+	for index, name := range indexOfParameterName {
+		for _, later := range indexOfParameterName[index+1:] {
+			if name != "" && later == name {
+				indexOfParameterName[index] = ""
+			}
+		}
+	}
 
 	if !argumentsFound {
 		arguments := rt.newArgumentsObject(indexOfParameterName, stash, len(argumentList))
@@ -49,7 +58,7 @@ func (rt *runtime) cmplCallNodeFunction(function *object, stash *fnStash, node *
 		// strict = false
 		rt.scope.lexical.setValue("arguments", objectValue(arguments), false)
 		for index := range argumentList {
-			if index < len(node.parameterList) {
+			if index < len(node.parameterList) && indexOfParameterName[index] != "" {
 				continue
 			}
 			indexAsString := strconv.FormatInt(int64(index), 10)
